@@ -17,6 +17,13 @@ var Steps uint64
 // schedActive is true while a Scheduler run is in progress.
 var schedActive bool
 
+// SimProcs is what repository code is told when it asks for runtime.GOMAXPROCS(0) or
+// runtime.NumCPU(): a constant of the simulation, not a property of the machine.
+var SimProcs = 4
+
+func GOMAXPROCS(n int) int { return SimProcs }
+func NumCPU() int          { return SimProcs }
+
 // Scheduling reports whether a scheduled run is in progress.
 func Scheduling() bool { return schedActive }
 
